@@ -78,6 +78,18 @@ class DeepError(DiamondError):
     pass
 
 
+class EmptyErrors(Exception):
+    """A container-like exception that is falsy (no sub-errors)."""
+
+    def __len__(self):
+        return 0
+
+
+class FalsyError(AppError):
+    def __bool__(self):
+        return False
+
+
 class CodedError(AppError):
     def __init__(self, msg):
         AppError.__init__(self, msg)
@@ -103,6 +115,8 @@ EXC_TABLE = [
     asyncio.CancelledError,
     AppBase,
     FileNotFoundError,
+    EmptyErrors,
+    FalsyError,
 ]
 BASE_ONLY = set(i for i, c in enumerate(EXC_TABLE) if not issubclass(c, Exception))
 
@@ -170,6 +184,8 @@ class Interp(object):
         # model of the extractor registry
         self.extractors = {}
         self.late = []
+        self.slots = {}
+        self.finalizers = {}
         self.check_context = opts.get("check_context", True)
 
     # -- helpers ---------------------------------------------------------
@@ -268,6 +284,8 @@ class Interp(object):
             while pending:
                 p = pending.pop(0)
                 p[1]()
+            for fin in self.finalizers.pop(id(pending), []):
+                fin()
 
     def exec_node(self, node, ctx, pending):
         op = node["op"]
@@ -308,11 +326,14 @@ class Interp(object):
         n = self.next_n()
         e = make_exc(node["exc"], n)
         xf, tbs = self.extractor_fields(e)
+        tb_fields = dict(reason=safe_str(e), exception=exc_name(e))
+        for k, v in xf.items():
+            tb_fields[k] = safe_str(v) if k == "reason" else v
         model = {
             "kind": "msg",
             "type": "eliot:traceback",
             "tb": True,
-            "fields": dict(xf, reason=safe_str(e), exception=exc_name(e)),
+            "fields": tb_fields,
             "n": n,
             "exc_obj": e,
         }
@@ -365,11 +386,14 @@ class Interp(object):
                     return {}, []
                 x = make_exc(beh["raise"], 0)
                 xf, _ = self.extractor_fields(x, _nested=True)
+                tbf = dict(reason=safe_str(x), exception=exc_name(x))
+                for k, v in xf.items():
+                    tbf[k] = safe_str(v) if k == "reason" else v
                 tb = {
                     "kind": "msg",
                     "type": "eliot:traceback",
                     "tb": True,
-                    "fields": dict(xf, reason=safe_str(x), exception=exc_name(x)),
+                    "fields": tbf,
                     "n": None,
                 }
                 self.stat("extractor-raised")
@@ -381,7 +405,8 @@ class Interp(object):
         model["exception"] = exc_name(e)
         model["reason"] = safe_str(e)
         fields, tbs = self.extractor_fields(e)
-        model["end"] = fields
+        # eliot sets these itself after the extractor ran: the truthful values win
+        model["end"] = dict((k, v) for k, v in fields.items() if k not in ("exception", "reason", "action_status"))
         model["exc_obj"] = e
         for tb in tbs:
             # logged while finishing: inside the action itself when it is
@@ -461,6 +486,12 @@ class Interp(object):
                 self.expect_current(ctx, "inside action %d" % n)
                 if py_ef:
                     self.api("add_success_fields", action.add_success_fields, **py_ef)
+                if node.get("early_finish") and self.opts.get("allow_early_finish"):
+                    self.stat("early-finish")
+                    if node["early_finish"] == 1:
+                        self.api("finish()", action.finish)
+                    else:
+                        self.api("finish(exc)", action.finish, ValueError("early"))
                 self.exec_nodes(node["body"], ctx)
                 self.expect_current(ctx, "end of body of action %d" % n)
             finally:
@@ -494,7 +525,7 @@ class Interp(object):
                 self.api("finish(exc)", action.finish, e)
             else:
                 self._exit_cm(cm, None)
-                self.api("finish()", action.finish)
+                self._finish_ok(action)
         elif kind == "finish_inside":
             cm = self.api("context()", action.context)
             self.api("context.__enter__", cm.__enter__)
@@ -524,7 +555,7 @@ class Interp(object):
                 exc = e
                 self.api("finish(exc)", action.finish, e)
             else:
-                self.api("finish()", action.finish)
+                self._finish_ok(action)
         else:
             raise ValueError(kind)
         self._after(node, ctx, model, before, action, exc)
@@ -597,6 +628,86 @@ class Interp(object):
             self.run.errors.append({"call": "gen.throw", "exception": "exception swallowed by the with block", "where": "_action.py:__exit__"})
             raise Abort()
 
+    def op_reseed(self, node, ctx, pending):
+        """The application re-seeds the global PRNG (task identity must not depend on it)."""
+        import random
+
+        random.seed(node["seed"])
+        self.stat("reseed")
+
+    def op_create(self, node, ctx, pending):
+        """Start an action now (child of the current action) without entering it; see op_enter."""
+        n = self.next_n()
+        model = {
+            "kind": "action",
+            "type": node["atype"],
+            "start": dict(self.ser_fields(node["sf"], None), n=n),
+            "end": None,
+            "status": None,
+            "children": [],
+            "n": n,
+            "akind": "created",
+        }
+        self.attach(ctx, model)
+        py_sf = dict((k, V.decode(v)) for k, v in node["sf"].items())
+        self.expect_current(ctx, "before creating action %d" % n)
+        action = self.api("start_action", start_action, action_type=node["atype"], n=n, **py_sf)
+        self.expect_current(ctx, "after creating action %d (not entered)" % n)
+        model["obj"] = action
+        self.slots[node["slot"] % 3] = model
+        self.stat("action:created-for-later")
+
+        def finalize():
+            # structured: whoever created it finishes it if nobody entered it
+            if model["status"] is None:
+                self.api("finish()", action.finish)
+                model["status"] = "succeeded"
+                model["end"] = {}
+                self.stat("created-never-entered")
+
+        self.finalizers.setdefault(id(pending), []).append(finalize)
+
+    def op_enter(self, node, ctx, pending):
+        """`with action:` on an action created earlier, possibly under a different current action."""
+        model = self.slots.get(node["slot"] % 3)
+        if model is None or model["status"] is not None or model.get("entered"):
+            self.stat("enter-skipped")
+            return
+        model["entered"] = True
+        action = model["obj"]
+        before = current_action()
+        if ctx.stack and ctx.stack[-1] is not model and before is not None:
+            self.stat("entered-under-different-action")
+        self.api("__enter__", action.__enter__)
+        ctx.stack.append(model)
+        exc = None
+        try:
+            try:
+                self.expect_current(ctx, "inside entered action %d" % model["n"])
+                self.exec_nodes(node["body"], ctx)
+            finally:
+                ctx.stack.pop()
+        except (Abort, HarnessError):
+            raise
+        except BaseException as e:
+            exc = e
+            suppress = self.api("__exit__", action.__exit__, type(e), e, e.__traceback__)
+            if suppress:
+                self.run.errors.append({"call": "__exit__", "exception": "returned true value: exception swallowed", "where": "_action.py:__exit__"})
+                raise Abort()
+            self._fail(model, e, ctx)
+        else:
+            self.api("__exit__", action.__exit__, None, None, None)
+            model["status"] = "succeeded"
+            model["end"] = {}
+        if self.check_context and current_action() is not before:
+            self.run.context_errors.append(
+                "after leaving action %d (created earlier, entered later): current_action() is %r, was %r before entry"
+                % (model["n"], _act_desc(current_action()), _act_desc(before))
+            )
+        if exc is not None:
+            raise exc
+
     def op_hook(self, node, ctx, pending):
         """Harness hook: run a case-supplied callback between two nodes."""
         fn = self.opts.get("hooks", {}).get(node["name"])
@@ -654,6 +765,20 @@ class Interp(object):
             )
         if exc is not None:
             raise exc
+
+    def _finish_ok(self, action):
+        """action.finish(), optionally with the defensive idiom `except BaseException as e: action.finish(e); raise`."""
+        if not self.opts.get("defensive_finish"):
+            self.api("finish()", action.finish)
+            return
+        try:
+            self.api("finish()", action.finish)
+        except (Abort, HarnessError):
+            raise
+        except BaseException as e:
+            self.stat("defensive-second-finish")
+            self.api("finish(exc) again", action.finish, e)
+            raise
 
     def _exit_cm(self, cm, e):
         if e is None:
@@ -1081,7 +1206,7 @@ def run_program(program, sink="memory", opts=None, destinations=None, before=Non
         else:
             dests = destinations(observer) if destinations else [observer]
             if opts.get("buffer_first"):
-                pass
+                run.pending_destinations = dests
             else:
                 fresh.add(*dests)
         if before:
@@ -1124,9 +1249,13 @@ def run_program(program, sink="memory", opts=None, destinations=None, before=Non
         old_limit = sys.getrecursionlimit()
         sys.setrecursionlimit(min(old_limit, depth + opts.get("stack_budget", 400)))
         try:
-            contextvars.copy_context().run(go)
+                contextvars.copy_context().run(go)
         finally:
             sys.setrecursionlimit(old_limit)
+        if getattr(run, "pending_destinations", None):
+            # the program ended before the first add_destinations: hand the buffer over now
+            fresh.add(*run.pending_destinations)
+            run.pending_destinations = None
         if sink == "memorylogger":
             run.messages = list(run.memory_logger.messages)
         elif sink in ("file-b", "file-t"):
@@ -1254,6 +1383,9 @@ def program_features(program):
             elif op == "reenter":
                 f["reenter"] = f.get("reenter", 0) + 1
                 walk(node["body"], depth)
+            elif op == "enter":
+                f["depth"] = max(f["depth"], depth + 1)
+                walk(node["body"], depth + 1)
             elif op in ("remote", "preserve"):
                 f["remote"] += 1
                 f["depth"] = max(f["depth"], depth + 1)
@@ -1268,7 +1400,7 @@ def program_features(program):
 TYPE_NAMES = ["app:a", "app:b", "app:c", "sys:x", "t", ""]
 
 
-def programs(max_nodes=12, faults=False, remote=True, kinds=None, msg_kinds=None, raises=True, preserve=True, max_depth=5, reenter=True, names=None, values=None, remote_weight=1, min_depth=1):
+def programs(max_nodes=12, faults=False, remote=True, kinds=None, msg_kinds=None, raises=True, preserve=True, max_depth=5, reenter=True, names=None, values=None, remote_weight=1, min_depth=1, extras=True):
     """
     Strategy for programs.  Depth is drawn first so that deep nestings are
     as likely as shallow ones; `max_nodes` bounds the body sizes.
@@ -1286,14 +1418,21 @@ def programs(max_nodes=12, faults=False, remote=True, kinds=None, msg_kinds=None
     )
     tb = exc_idx.map(lambda i: {"op": "tb", "exc": i})
     rz = exc_idx.map(lambda i: {"op": "raise", "exc": i})
-    leaf = st.one_of(msg, msg, msg, msg, tb)
+    leaf_options = [msg, msg, msg, msg, msg, msg, msg, msg, tb, tb]
+    if extras:
+        leaf_options.append(st.integers(0, 2).map(lambda k: {"op": "reseed", "seed": k}))
+        leaf_options.append(
+            st.builds(lambda slot, atype, sf: {"op": "create", "slot": slot, "atype": atype, "sf": sf}, st.integers(0, 2), st.sampled_from(TYPE_NAMES), V.field_dicts(1, names, values))
+        )
+    leaf = st.one_of(*leaf_options)
     width = 3 if max_nodes <= 8 else 4
 
     def compound(body, top=False):
         action = st.builds(
-            lambda kind, atype, sf, ef, body, typed, extra, ir, dt, exc: {
+            lambda kind, atype, sf, ef, body, typed, extra, ir, dt, exc, early: {
                 "op": "action",
                 "exc": exc,
+                "early_finish": early,
                 "kind": kind,
                 "atype": atype,
                 "sf": sf,
@@ -1314,12 +1453,15 @@ def programs(max_nodes=12, faults=False, remote=True, kinds=None, msg_kinds=None
             st.booleans(),
             st.sampled_from([False, False, True]),
             exc_idx,
+            st.sampled_from([0, 0, 0, 0, 1, 2]),
         )
         options = [action, action, action, action]
         if top:
             # at top level there is no current action: re-entering or handing
             # off is impossible, so start with an action
             return action
+        if extras:
+            options.append(st.builds(lambda slot, body: {"op": "enter", "slot": slot, "body": body}, st.integers(0, 2), body))
         if reenter:
             options.append(
                 st.builds(
